@@ -44,11 +44,13 @@ def generate(seed, tier="quick"):
         if expensive and c < 0.35:
             k = rnd.choice(["prior_sample", "rejection_by_count"])
             if k == "prior_sample":
-                op = {"id": oid, "op": "prior_sample", "size": rnd.randint(1, 6), "generate_linear": rnd.random() < 0.3, "return_logprobs": rnd.random() < 0.3}
+                op = {"id": oid, "op": "prior_sample", "size": rnd.randint(1, 6), "generate_linear": rnd.random() < 0.3, "return_logprobs": rnd.random() < 0.3, "rewind": rnd.random() < 0.6}
             else:
                 op = {"id": oid, "op": "rejection_by_count", "data": 0, "N": rnd.randint(2, 12), "in_memory": rnd.random() < 0.5, "kw": {"n_linear_samples": rnd.choice([1, 2])}}
                 if not op["in_memory"]:
                     op["kw"]["n_batches"] = rnd.randint(1, 4)  # equal batching between the twins
+                else:
+                    op["rewind"] = rnd.random() < 0.6
             ops.append(op)
             continue
         if c < 0.12:
@@ -102,6 +104,7 @@ def _run_ops(dep, ops, gm, iso, rng=None, joker=None, clones=None):
                 joker.pool.begin_op(op.get("id"))
             ml = len(getattr(joker.pool, "map_calls", []))
             dep.log.add("op-begin", k, {x: y for x, y in op.items() if x != "id"})
+            state_before = rng.bit_generator.state
             try:
                 from sim.executor import capture, exc_chain
 
@@ -123,6 +126,22 @@ def _run_ops(dep, ops, gm, iso, rng=None, joker=None, clones=None):
             rec["draw_hi"] = len(dep.record.draws)
             rec["maps"] = list(getattr(joker.pool, "map_calls", [])[ml:])
             from sim.executor import _digestable
+
+            if op.get("rewind") and rec["raised"] is None and k in ("prior_sample", "rejection_by_count"):
+                # checkpoint / restore on the SAME Generator object: run again from the state saved before the call
+                after = rng.bit_generator.state
+                rng.bit_generator.state = state_before
+                n_draws = len(dep.record.draws)
+                try:
+                    if k == "prior_sample":
+                        out2 = dep.world.prior.sample(size=op["size"], generate_linear=op.get("generate_linear", False), return_logprobs=op.get("return_logprobs", False), rng=rng)
+                    else:
+                        out2 = joker.rejection_sample(dep.world.datasets[op.get("data", 0)], int(op["N"]), in_memory=True, **op.get("kw", {}))
+                    rec["rewind"] = {"raised": None, "out": capture(out2)}
+                except Exception as e:  # noqa: BLE001
+                    rec["rewind"] = {"raised": exc_chain(e), "out": None}
+                rng.bit_generator.state = after
+                del dep.record.draws[n_draws:]  # the replayed draws are the same numbers by construction: not "repeats"
 
             dep.log.add("op-end", k, None, _digestable(rec["out"]) if rec["raised"] is None else {"raised": rec["raised"][0][0]})
             dep.history.append(rec)
@@ -232,6 +251,8 @@ def run(program):
                     got = [t["fp"] for t in m["tasks"] if t["fp"] is not None]
                     if got:
                         spawned_calls += 1
+                    if any(t.get("is_parent") for t in m["tasks"]):
+                        v.append(Violation(PROPERTY, "C10.stream-unique", "C10:child-generators:task-carries-the-sampler's-own-generator", "map %s: a by-value pool would draw from a copy and the parent stream would be reused by the next call" % m["key"]))
                     for i, fp in enumerate(got):
                         if fp in fps:
                             v.append(Violation(PROPERTY, "C10.stream-unique", "C10:child-generators:same-stream-given-to-two-tasks", "map %s task %d reuses the stream of %s" % (m["key"], i, fps[fp])))
@@ -260,6 +281,38 @@ def run(program):
                     args.setdefault(k2, set()).add(d["gen"])
             if any(len(g) > 1 for g in args.values()):
                 probe("equal_(a,A)_drawn_on_different_generators")
+        # output-based form of (d): no two returned rows (in one call or across calls) may carry identical linear
+        # parameters -- the draws are continuous, so equality means a stream was reused, wherever it was drawn
+        seen_lin = {}
+        lin_rows = 0
+        for ra in outsA:
+            if ra["raised"] is not None or ra["out"] is None:
+                continue
+            o = ra["out"]
+            if o["type"] == "tuple":
+                o = o["items"][0]
+            if o["type"] != "JokerSamples" or "K" not in o["cols"]:
+                continue
+            names = [n for n in o["names"] if n not in ("P", "e", "omega", "M0", "s", "ln_prior", "ln_likelihood")]
+            if not names or ra["op"]["op"] == "prior_sample":
+                continue
+            lin = np.stack([np.asarray(o["cols"][n]["v"], dtype=float) for n in names], axis=1)
+            for i, row in enumerate(lin):
+                k3 = row.tobytes()
+                lin_rows += 1
+                if k3 in seen_lin and not np.any(np.isnan(row)):
+                    v.append(Violation(PROPERTY, "C10.repeat", "C10:linear-draws:identical-linear-parameters-returned-twice", "op %s row %d repeats the linear parameters of op %s row %d: %s" % (ra["op"].get("id"), i, seen_lin[k3][0], seen_lin[k3][1], row[:3])))
+                    break
+                seen_lin.setdefault(k3, (ra["op"].get("id"), i))
+        probe("returned_linear_rows_checked_for_repeats", lin_rows)
+        # (f) rewind: the SAME generator object put back to a saved state must reproduce the call
+        for ra in outsA:
+            rw = ra.get("rewind")
+            if rw is not None:
+                probe("rewind_ops")
+                why = _same_output(ra, rw)
+                if why:
+                    v.append(Violation(PROPERTY, "C10.rewind", "C10:%s:same-generator-rewound-gives-different-output" % ra["op"]["op"], "%s :: %s" % (why, ra["op"])))
         # parent state advances between successive sampling calls
         # (e) mid-run clone twin
         k = min(tw.get("clone_at", 0), len(program["ops"]) - 1)
